@@ -385,7 +385,7 @@ VerdictOf ==
              "onlygen_despite_enough", "extra_invocations", "gen_before_failfiles", "ff_not_found", "pass_without_verdict",
              "failed_without_report", "onlygen_count", "ret_budget", "early_exit_without_deadline", "early_exit_too_early"},
     C11 |-> {"phantom_failure", "lost_failure", "reported_failure_never_happened", "flaky_report", "skip_misjudged",
-             "label_carried_over", "failure_message", "dead_context_in_body"},
+             "label_carried_over", "failure_message", "dead_context_in_body", "context_outlives_case"},
     C17 |-> {"ff_ignored_silently", "ff_changed_verdict", "ff_changed_cases", "ff_after_failure", "ff_order", "unusable_file_used",
              "check_crashed", "ff_phantom_failure"} ]
 =============================================================================
